@@ -320,20 +320,26 @@ def run(ctx):
     gc.disable()
     try:
         i = -1
+        limit = 2 if getattr(ctx, "factor", 1.0) != 1.0 else None
         for victim in VICTIMS:
             for expr in EXPRS:
                 for op in OPS:
                     i += 1
                     if not ctx.mine(i):
                         continue
+                    if limit is not None:
+                        if limit == 0 or (i // ctx.nshards) % 5 != ctx.seed % 5:
+                            continue
+                        limit -= 1
                     ref = {}
-                    n = _one(ctx, P, victim, expr, op, None, ref)
-                    if not n or ref.get("bad"):
-                        continue
                     if not ctx.begin("gcp:%s:%s:%s" % (victim, expr, op),
                                      {"stratum": "gcpoints", "victim": victim, "expression": expr, "op": op}):
                         continue
                     try:
+                        n = _one(ctx, P, victim, expr, op, None, ref)
+                        if not n or ref.get("bad"):
+                            ctx.count("gcpoint_combinations_without_operation")
+                            continue
                         ctx.count("gcpoint_scenarios")
                         ctx.count("gcpoint_points_enumerated", n)
                         for k in range(1, n + 1):
